@@ -87,6 +87,22 @@ def small_scope(focus, quick):
             for na in (2, 3, 4):
                 progs.append(new_prog(bar=list(sizes), actors=[[op("bar", 1 + (i % 2)), op("bar", 2 - (i % 2))]
                                                                for i in range(na)]))
+    elif focus == "life":
+        # suspension: every program of 2 controllers x 2 operations over {suspend, resume, yield, sleep} acting on a third actor
+        # that sleeps / suspends itself / joins / waits on a semaphore: all relative orders of suspend, resume and the victim's
+        # own simcall inside one scheduling round
+        import itertools
+        ctl = [op("suspend", 3), op("resume", 3), op("yield"), op("sleep", 0, 0, 1)]
+        victims = [[op("sleep", 0, 0, 2), op("onexit", 31)], [op("yield"), op("sleep", 0, 0, 2)], [op("suspend", 3), op("sleep", 0, 0, 1)],
+                   [op("join", 1, 0, 2), op("yield")], [op("acqt", 1, 0, 1), op("sleep", 0, 0, 1)], [op("yield"), op("acq", 1), op("yield")]]
+        if not quick:
+            ctl += [op("rel", 1), op("kill", 3)]
+        for c1 in itertools.product(ctl, repeat=2):
+            for c2 in itertools.product(ctl, repeat=2):
+                if not any(o["op"] in ("suspend", "resume") for o in c1 + c2):
+                    continue
+                for v in victims:
+                    progs.append(new_prog(cap=[0], actors=[list(c1), list(c2), list(v)]))
     return progs
 
 
